@@ -26,6 +26,8 @@ pub fn parse_sched(s: &str) -> Option<Vec<Sched>> {
             v.push(Sched::PendingDrop);
         } else if let Some(n) = it.strip_prefix('c') {
             v.push(Sched::Chunk(n.parse().ok()?));
+        } else if let Some(n) = it.strip_prefix('i') {
+            v.push(Sched::InitChunk(n.parse().ok()?));
         } else {
             return None;
         }
